@@ -352,3 +352,22 @@ mut("c17_relu_c0_sign", AC, '''        c0 = jnp.log(1. + omega_dagger)
         c1 = 1 / (1. + omega_dagger)''', ["C17"])
 mut("c17_heaviside_logdet_ln2", AC, "int_ln1pf_h = jnp.log(2.) * vmap(integrate_f_i, out_axes=0)(w, w0)", "int_ln1pf_h = 0.7 * vmap(integrate_f_i, out_axes=0)(w, w0)", ["C17"])
 mut("c17_cond_cov_precision", AC, "            G_x = D_x / (1 + D_x) # [N x Dk]", "            G_x = D_x / (2 + D_x) # [N x Dk]", ["C17", "C02"])
+# ---- C18
+mut("c18_stop_gradient_removed", AC, "        omega_star = lax.stop_gradient(self._get_omega_star(p_x=p_x, y=y, W_i=W_i, a_i=a_i))",
+    "        omega_star = self._get_omega_star(p_x=p_x, y=y, W_i=W_i, a_i=a_i)", ["C18"])
+mut("c18_python_branch_on_value", CO, '''        y_minus_b = y - self.b
+        Lambda_new = jnp.einsum(''', '''        if jnp.any(jnp.isnan(y)):
+            raise ValueError("y contains NaN")
+        y_minus_b = y - self.b
+        Lambda_new = jnp.einsum(''', ["C18"])
+mut("c18_to_dict_logdet_sign", PD, '''            "ln_det_Sigma": self.ln_det_Sigma,
+        }
+        return density_dict''', '''            "ln_det_Sigma": -self.ln_det_Sigma,
+        }
+        return density_dict''', ["C18"])
+mut("c18_logdet_gradient_blocked", LA, "    ln_det_A = 2.0 * jnp.sum(jnp.log(L[0].diagonal(axis1=-1, axis2=-2)), axis=1)\n    return A_inv, ln_det_A",
+    "    from jax import lax\n    ln_det_A = 2.0 * jnp.sum(jnp.log(lax.stop_gradient(L[0]).diagonal(axis1=-1, axis2=-2)), axis=1)\n    return A_inv, ln_det_A", ["C18"])
+mut("c18_unflatten_drops_caches", DC, '''        obj.__dict__.update(state)
+        return obj''', '''        return obj''', ["C18"])
+mut("c18_vmap_unsafe_reshape", ME, '''        return jnp.einsum("a,ab->ab", constant, self._expectation_x())''', '''        return (constant.reshape((-1, 1)) * self._expectation_x().reshape((constant.shape[0], -1))).reshape(self.mu.shape)''', [])
+mut("c18_omega_loop_dead_again", AC, "        omega_dagger = jnp.full_like(omega_star, jnp.inf)", "        omega_dagger = omega_star", ["C18"])
